@@ -36,17 +36,20 @@ def check(R):
         for nm in (SESS + '::get_exch_for_rx', SESS + '::add_exch', 'transport::exchange::ExchangeState::post_recv'):
             R.cut('P2', pr, nm.split('::')[-2] + '::' + nm.split('::')[-1], call_bbs(pr, nm), 'RxCtrState::post_recv == true', g)
         R.cut('P2', pr, 'return Ok', ok_return_bbs(pr), 'RxCtrState::post_recv == true', g)
-        t = pr.calls(RX + '::post_recv')[0]
-        a = t.d['a']
-        s_state = prims.sources(pr, a[0])
-        s_ctr = prims.sources(pr, a[1])
-        s_enc = prims.sources(pr, a[2])
-        R.expect('P10', pr.fn, 'the window consulted is this session\'s rx_ctr_state with the header counter',
-                 mentions(s_state, 'rx_ctr_state') and mentions(s_ctr, 'ctr') and mentions(s_ctr, 'plain'), 'rx_ctr_state.post_recv(rx_header.plain.ctr, ..)',
-                 f'state {sorted(map(str, s_state))[:4]} ctr {sorted(map(str, s_ctr))[:4]}', pr.where(t.bb))
-        R.expect('P6', pr.fn, 'unicast mode: encrypted <= self.is_encrypted(), rollover = false',
-                 SESS + '::is_encrypted' in src_calls(s_enc) and a[3].get('k', {}).get('v') == 0, 'post_recv(ctr, self.is_encrypted(), false)',
-                 f'enc {sorted(map(str, s_enc))[:4]} rollover {a[3]}', pr.where(t.bb))
+        # the window call itself may sit in Session::post_recv or in a helper method of Session it calls (a wrapper, see call_guard)
+        wsites = [(b_, t) for b_ in F.bodies.values() if b_.focus and b_.fn.startswith(SESS + '::') and '::tests::' not in b_.fn for t in b_.calls(RX + '::post_recv')]
+        R.floor('RxCtrState::post_recv call in Session', len(wsites), 1)
+        for wb_, t in wsites:
+            a = t.d['a']
+            s_state = prims.sources(wb_, a[0])
+            s_ctr = prims.sources(wb_, a[1])
+            s_enc = prims.sources(wb_, a[2])
+            R.expect('P10', wb_.fn, 'the window consulted is this session\'s rx_ctr_state with the header counter',
+                     mentions(s_state, 'rx_ctr_state') and mentions(s_ctr, 'ctr') and mentions(s_ctr, 'plain'), 'rx_ctr_state.post_recv(rx_header.plain.ctr, ..)',
+                     f'state {sorted(map(str, s_state))[:4]} ctr {sorted(map(str, s_ctr))[:4]}', wb_.where(t.bb))
+            R.expect('P6', wb_.fn, 'unicast mode: encrypted <= self.is_encrypted(), rollover = false',
+                     SESS + '::is_encrypted' in src_calls(s_enc) and a[3].get('k', {}).get('v') == 0, 'post_recv(ctr, self.is_encrypted(), false)',
+                     f'enc {sorted(map(str, s_enc))[:4]} rollover {a[3]}', wb_.where(t.bb))
 
     # ---- b --------------------------------------------------------------------
     with R.clause('b'):
@@ -124,7 +127,7 @@ def check(R):
         pass
         for fld in ('max_ctr', 'ctr_bitmap'):
             R.writers_confined('P1', f'{fld}:{RX}', {RX + '::new', RX + '::post_recv', RX + '::insert'})
-        allowed = {SESS + '::post_recv'}
+        allowed = {SESS + '::*'}     # Session::post_recv, or a private helper of Session it calls (the call site's arguments are checked in clause a)
         if groups:
             allowed.add('transport::dedup::GroupCtrStore::post_recv')
         R.callers_confined('P1', RX + '::post_recv', allowed)
